@@ -6,10 +6,10 @@ package main
 
 import (
 	"fmt"
-	"sort"
 	"go/constant"
 	"go/token"
 	"go/types"
+	"sort"
 	"strings"
 	"unicode"
 
@@ -180,13 +180,13 @@ func (e *bsetEngine) TableSym(fn *ssa.Function, dom []int64, isSym func(v ssa.Va
 type evalState struct {
 	noLoopPhi bool                            // loop-header phis are unknown (their value differs between iterations)
 	symVal    func(v ssa.Value) (int64, bool) // optional: additional symbols with fixed values
-	depth  int
-	e      *bsetEngine
-	fn     *ssa.Function
-	d      int64
-	isSym  func(v ssa.Value) bool
-	from   []int // predecessor block index by which each block was entered (-1 = not visited)
-	why    string
+	depth     int
+	e         *bsetEngine
+	fn        *ssa.Function
+	d         int64
+	isSym     func(v ssa.Value) bool
+	from      []int // predecessor block index by which each block was entered (-1 = not visited)
+	why       string
 }
 
 func (e *bsetEngine) run(t *bsetTable, fn *ssa.Function, dom []int64, isSym func(v ssa.Value) bool) {
